@@ -21,6 +21,8 @@ def places_for(tier):
             return ["cap0", "dirtyhole"]
         if form == "xobj-nested":
             return ["dirtyhole", "cap0"]
+        if form == "xobj-slack":
+            return ["dirtybig", "cap0"]
         if form == "cap":
             return ["cap0", "dirtybig", "dirtybig2", "default"]
         return ["ctx"]
